@@ -102,6 +102,8 @@ func at(root any, path string) any {
 	return cur
 }
 
+var prevSchemaText []byte
+
 func runValidator(st, it []byte, recycle bool) (*validate.Result, any, sut.Outcome) {
 	var res *validate.Result
 	var data any
@@ -110,9 +112,22 @@ func runValidator(st, it []byte, recycle bool) (*validate.Result, any, sut.Outco
 		data, _ = sut.Value(it)
 		// the one-shot entry point on the same data first (a common pattern: check, then validate for
 		// post-processing): it recycles results, whose leftovers must not reach the result built below
-		if s0, err := sut.Schema(st); err == nil {
-			_ = validate.AgainstSchema(s0, data, strfmt.Default)
+		oneShot := func(text []byte) {
+			// guarded on its own: a panic of this auxiliary call (the recorded dependency panic) is not the subject here
+			_ = sut.Guard(func() sut.Outcome {
+				if s0, err := sut.Schema(text); err == nil {
+					_ = validate.AgainstSchema(s0, data, strfmt.Default)
+				}
+				return sut.Outcome{Valid: true}
+			})
 		}
+		oneShot(st)
+		// ... and against ANOTHER schema (the previous case's): whatever that run recorded about this very data
+		// (same object identities) must not leak into the result built below
+		if prevSchemaText != nil {
+			oneShot(prevSchemaText)
+		}
+		prevSchemaText = append(prevSchemaText[:0], st...)
 		var opts []validate.Option
 		if recycle {
 			opts = append(opts, validate.WithRecycleValidators(true))
